@@ -52,8 +52,14 @@ def generic_children(node):
     return [c for c in out if not isinstance(c, (ast.expr_context, ast.operator, ast.unaryop, ast.boolop, ast.cmpop))]
 
 
-def enc(n):
-    E = enc
+def enc(n, hook=None):
+    """`hook(node, E)` (optional, default: none = the encoding as it always was): may return the JSON of a
+    node itself (`E` encodes sub-nodes with the same hook) or None to fall through."""
+    E = enc if hook is None else (lambda x: enc(x, hook))
+    if hook is not None:
+        r = hook(n, E)
+        if r is not None:
+            return r
     L = lambda xs: [E(x) for x in xs]  # noqa: E731
     c = lambda node: CTX[type(node.ctx)]  # noqa: E731
     if isinstance(n, ast.Name):
@@ -289,11 +295,11 @@ def canon_model_out(mo):
     }
 
 
-def model_request(tree_fn, ctx):
+def model_request(tree_fn, ctx, enc_hook=None):
     args = tree_fn.args
     body = tree_fn.body if not isinstance(tree_fn, ast.Lambda) else [tree_fn.body]
     return ("analyse_fn", {"env": env_json(), "root": root_snapshot(ctx), "module": "target",
-                           "params": params_json(args), "body": [enc(s) for s in body]})
+                           "params": params_json(args), "body": [enc(s, enc_hook) for s in body]})
 
 
 def compare(im, mo):
@@ -321,8 +327,9 @@ class Case:
     __slots__ = ("module_src", "name", "fn", "fn_src", "im", "events", "mo", "diff")
 
 
-def run_batch(rng, n_modules, model, hostile=0.015, extra_sources=()):
-    """Generate modules, run the real FunctionAnalyser and the Lean model on every function."""
+def run_batch(rng, n_modules, model, hostile=0.015, extra_sources=(), enc_hook=None):
+    """Generate modules, run the real FunctionAnalyser and the Lean model on every function.
+    `enc_hook`: see `enc` (default None: unchanged encoding)."""
     from props import bodygen
 
     cases, reqs = [], []
@@ -336,7 +343,7 @@ def run_batch(rng, n_modules, model, hostile=0.015, extra_sources=()):
             c = Case()
             c.module_src, c.name, c.fn = src, name, fn
             c.fn_src = ast.unparse(fn)
-            reqs.append(model_request(fn, ctx))
+            reqs.append(model_request(fn, ctx, enc_hook))
             c.im, c.events = analyse_function(fn, ctx)
             cases.append(c)
     outs = model.batch(reqs)
